@@ -663,6 +663,13 @@ func (f *File) Write(p []byte) (n int, err error) {
 		return 0, err
 	}
 
+	// With `O_APPEND`, every write goes to the end of the file
+	if f.flags.Append {
+		if _, err := f.writeBuf.Seek(0, io.SeekEnd); err != nil {
+			return 0, err
+		}
+	}
+
 	n, err = f.writeBuf.Write(p)
 	if err != nil {
 		return 0, err
@@ -719,6 +726,13 @@ func (f *File) WriteString(s string) (ret int, err error) {
 
 	if err := f.enterWriteMode(); err != nil {
 		return 0, err
+	}
+
+	// With `O_APPEND`, every write goes to the end of the file
+	if f.flags.Append {
+		if _, err := f.writeBuf.Seek(0, io.SeekEnd); err != nil {
+			return 0, err
+		}
 	}
 
 	return f.writeBuf.Write([]byte(s))
